@@ -29,7 +29,13 @@ def gen_case(rng: Rng, i):
         pnames = ["pa"]
         pg = AG(rng.fork("pa"), data, [], opt={"partials": False})
         partials["pa"] = pg.nodes([ref.Scope(data, "partial")], 2)
-    ag = AG(rng.fork("main"), data, pnames, opt={"missing": 0.15})
+        # inside a partial the caller's block parameters, @-variables and outer scopes are out of reach: probe the names
+        # the generated block parameters use (they resolve to fields of the partial's own context, or to nothing)
+        r2 = rng.fork("probe")
+        for nm in r2.shuffle(["it", "k", "v", "x", "name", "w"])[:r2.range(1, 3)]:
+            partials["pa"].append({"t": "text", "s": "|"})
+            partials["pa"].append({"t": "expr", "arg": {"a": "path", "ups": 0, "root": False, "segs": [nm], "this": False}, "html": 0})
+    ag = AG(rng.fork("main"), data, pnames, opt=({"missing": 0.15, "bp": 0.9} if pnames and rng.chance(0.6) else {"missing": 0.15}))
     if mode == "tmpl":
         ast = ag.nodes([ref.Scope(data, "root")], rng.range(2, 5))
         asts = dict(partials, main=ast)
